@@ -290,6 +290,9 @@ def run(ctx, tasks=None):
             flacblocks_tie.run(ctx)
             import flacload_tie
             flacload_tie.run(ctx)
+            # every format class: real Type(BytesIO(data)) vs the composed load of Model/FileTypes.lean
+            import filetypes_tie
+            filetypes_tie.run(ctx)
             import mp4file_tie
             mp4file_tie.run(ctx, report=True)
         except ImportError as e:
